@@ -30,11 +30,15 @@ def table_scripts():
         col_scripts.append([{"op": "t_add", "variant": 1, "mask": 0}, {"op": "t_add", "variant": 2, "mask": 1},
                             {"op": "t_set", "h": 1, "col": c, "variant": 3, "mask": 0}, {"op": "t_set", "h": 2, "col": c, "variant": 1, "mask": 0},
                             {"op": "t_set", "h": 1, "col": c, "variant": 2, "mask": 1}, {"op": "t_set", "h": 1, "col": c, "variant": 4, "mask": 2},
+                            {"op": "t_set", "h": 1, "col": c, "variant": 13, "mask": 0}, {"op": "t_set", "h": 2, "col": c, "variant": 13, "mask": 0},
+                            {"op": "t_set", "h": 2, "col": c, "variant": 2, "mask": 1},
                             {"op": "t_update", "h": 1, "variant": 3, "mask": 3}, {"op": "t_set", "id": 4242, "col": c, "variant": 1, "mask": 0}])
     errors = [[{"op": "t_add", "variant": 1, "mask": 0}, {"op": "t_getcol", "id": 9999}, {"op": "t_remove", "id": 9999},
                {"op": "t_update", "id": 9999, "variant": 2, "mask": 0}, {"op": "t_add", "variant": 2, "mask": 0, "with_id": True},
                {"op": "t_remove", "h": 1}, {"op": "t_getcol", "id": 1}, {"op": "t_remove", "h": 1}, {"op": "t_update", "h": 1, "variant": 2, "mask": 0}],
-              [{"op": "t_add", "variant": v, "mask": m} for v in (1, 2, 3, 4, 5, 6) for m in (0, 1, 2, 3)],
+              [{"op": "t_add", "variant": v, "mask": m} for v in (1, 2, 3, 4, 5, 6, 13) for m in (0, 1, 2, 3)],
+              [{"op": "t_add", "variant": 1, "mask": 0}, {"op": "t_update", "h": 1, "variant": 13, "mask": 0}, {"op": "t_update", "h": 1, "variant": 2, "mask": 1},
+               {"op": "t_update", "h": 1, "variant": 13, "mask": 2}],
               [{"op": "pl_add", "title": "a"}, {"op": "pl_add", "title": "b", "parent": 1}, {"op": "pl_add", "title": "", "persisted": False}]]
     return col_scripts, errors
 
@@ -120,7 +124,7 @@ def check_C18(tier, seed):
     mstates = mtrans = 0
     focus_sets = [["title", "artist"], ["date_created", "date_added"], [rnd.choice(COLS), rnd.choice(COLS)]]
     for k, fc in enumerate(focus_sets):
-        cfg = vlib.cfg_text("Spec", {"MaxOps": 3, "Variants": {1, 2, 3}, "Masks": {0, 1, 2}, "Cols": set(fc)}, properties=["Frame"], constraints=["EmitSeq"])
+        cfg = vlib.cfg_text("Spec", {"MaxOps": 3, "Variants": {1, 2, 13}, "Masks": {0, 1, 2}, "Cols": set(fc)}, properties=["Frame"], constraints=["EmitSeq"])
         rc, outp = vlib.run_tlc("MCTableApi", cfg, wd, "mctable%d" % k, workers=8, timeout=900, xmx="8g")
         res = vlib.parse_tlc(outp)
         if not res["ok"]:
